@@ -310,7 +310,7 @@ Theorem C19_tie_array_boxcox :
 Proof. exact array_boxcox_tie. Qed.
 Print Assumptions C19_tie_array_boxcox.
 
-(* ---- the property theorems restated on the translated source terms (every function below is Formulas_gen.*) *)
+(* ---- the property theorems restated on the translated source terms (every function below is a Formulas_gen term) *)
 Theorem C19_source_uniform_pushforward :
   forall erf erfinv, erf_hyps erf erfinv -> forall m v low high, 0 < v -> low < high ->
     let O := Rops erf erfinv in
